@@ -654,7 +654,10 @@ func (ls *LState) raiseError(level int, format string, args ...interface{}) {
 		if ls.currentFrame != nil && ls.currentFrame.Fn.IsG {
 			lv = level
 		}
-		message = fmt.Sprintf("%v %v", ls.where(lv, true), message)
+		if pos := ls.where(lv, true); pos != "" {
+			// a level that names no function adds nothing, not even the blank
+			message = fmt.Sprintf("%v %v", pos, message)
+		}
 	}
 	if ls.reg.IsFull() {
 		// if the registry is full then it won't be possible to push a value, in this case, force a larger size
